@@ -613,3 +613,11 @@ mod test {
         assert_eq!(query.get_fz_query(), "");
     }
 }
+
+#[cfg(feature = "verif")]
+impl Query {
+    /// (cursor column in the query buffer, cursor column in the command buffer), in characters
+    pub fn verif_cursors(&self) -> (usize, usize) {
+        (self.fz_query_before.len(), self.cmd_before.len())
+    }
+}
